@@ -244,48 +244,83 @@ func runC40Case(ctx context.Context, env *vkit.Env, s storage.Storage, bn storag
 		return fmt.Sprintf("error before gate after %d bytes: %v", n, err), "download-failed-without-interference"
 	}
 	// interfering operation, committed, then GC
-	switch inter {
-	case "overwrite":
-		_, err = s.PutObject(ctx, bn, key, nil, bytes.NewReader(taggedBody(tag+"/NEW", total)), nil, nil)
-	case "overwrite-identical":
-		_, err = s.PutObject(ctx, bn, key, nil, bytes.NewReader(content), nil, nil)
-	case "delete":
-		_, err = s.DeleteObject(ctx, bn, key, nil)
-	case "delete-version":
-		_, err = s.DeleteObject(ctx, bn, key, &storage.DeleteObjectOptions{VersionID: cr.VersionID})
-	case "transition":
-		err = s.TransitionObjectStorageClass(ctx, bn, key, "STANDARD_IA", nil)
-	}
-	if err != nil {
-		return "interference-failed: " + err.Error(), ""
-	}
-	time.Sleep(4 * time.Millisecond)
-	for i := 0; i < 2; i++ {
-		if gerr := metadatapart.RunGCOnce(ctx, s); gerr != nil {
-			return "gc-failed: " + gerr.Error(), ""
+	doInter := func() error {
+		var err error
+		switch inter {
+		case "overwrite":
+			_, err = s.PutObject(ctx, bn, key, nil, bytes.NewReader(taggedBody(tag+"/NEW", total)), nil, nil)
+		case "overwrite-identical":
+			_, err = s.PutObject(ctx, bn, key, nil, bytes.NewReader(content), nil, nil)
+		case "delete":
+			_, err = s.DeleteObject(ctx, bn, key, nil)
+		case "delete-version":
+			_, err = s.DeleteObject(ctx, bn, key, &storage.DeleteObjectOptions{VersionID: cr.VersionID})
+		case "transition":
+			err = s.TransitionObjectStorageClass(ctx, bn, key, "STANDARD_IA", nil)
 		}
+		return err
 	}
-	chunk := make([]byte, 32*1024)
-	for {
-		n, err := rd.Read(chunk)
-		if n > 0 {
-			if msg := check(chunk[:n]); msg != "" {
-				return msg, "download-mixed-content"
-			}
-		}
-		if err == io.EOF {
-			if delivered != total {
-				return fmt.Sprintf("EOF after %d of %d bytes", delivered, total), "download-truncated-silently"
-			}
-			return "full-old-content", ""
-		}
+	opDone := make(chan error, 1)
+	go func() { opDone <- doInter() }()
+	blocked := false
+	select {
+	case err = <-opDone:
+	case <-time.After(500 * time.Millisecond):
+		// the store makes the write wait for the open reader (per-part lock of the erasure-coding
+		// store): a safe way to keep the download intact. The reader is drained first, the write
+		// has to complete once the reader is closed.
+		blocked = true
+	}
+	if !blocked {
 		if err != nil {
-			if txBound {
-				return fmt.Sprintf("error after %d of %d bytes: %v", delivered, total, vmodel.ErrKind(err)+" "+err.Error()), "tx-bound-download-failed"
+			return "interference-failed: " + err.Error(), ""
+		}
+		time.Sleep(4 * time.Millisecond)
+		for i := 0; i < 2; i++ {
+			if gerr := metadatapart.RunGCOnce(ctx, s); gerr != nil {
+				return "gc-failed: " + gerr.Error(), ""
 			}
-			return "error-after-gate", ""
 		}
 	}
+	drain := func() (string, string) {
+		chunk := make([]byte, 32*1024)
+		for {
+			n, err := rd.Read(chunk)
+			if n > 0 {
+				if msg := check(chunk[:n]); msg != "" {
+					return msg, "download-mixed-content"
+				}
+			}
+			if err == io.EOF {
+				if delivered != total {
+					return fmt.Sprintf("EOF after %d of %d bytes", delivered, total), "download-truncated-silently"
+				}
+				return "full-old-content", ""
+			}
+			if err != nil {
+				if txBound {
+					return fmt.Sprintf("error after %d of %d bytes: %v", delivered, total, vmodel.ErrKind(err)+" "+err.Error()), "tx-bound-download-failed"
+				}
+				return "error-after-gate", ""
+			}
+		}
+	}
+	outcome, viol := drain()
+	if blocked {
+		_ = rd.Close()
+		select {
+		case err = <-opDone:
+			if err != nil && viol == "" {
+				return "interference-failed: " + err.Error(), ""
+			}
+		case <-time.After(60 * time.Second):
+			return "the interfering write was still blocked 60 s after the reader had been closed", "write-blocked-after-reader-closed"
+		}
+		if viol == "" {
+			outcome += "+write-waited-for-reader"
+		}
+	}
+	return outcome, viol
 }
 
 func envSpecOf(s storage.Storage) string { return "" }
